@@ -163,6 +163,22 @@ pub fn gen_targets(r: &mut Rng, layout: &str) -> Value {
 
 pub fn main(o: &Opts) {
     if o.get("bt").is_some() { std::panic::set_hook(Box::new(|info| eprintln!("PANIC {info}\n{}", std::backtrace::Backtrace::force_capture()))); }
+    if let (Some(p), Some(rule)) = (&o.replay, o.get("fix")) {
+        // development aid: one rule applied repeatedly (what `Optimizer::with_rules([rule])` does), printing every plan
+        for c in replay_cases(p) {
+            let sql = c["sql"].as_str().unwrap_or("").to_string();
+            let show = |provs: &Provs| {
+                let stats = stats_of(provs);
+                let mut cur = bind(provs, &sql).unwrap();
+                eprintln!("BOUND\n{}", cur);
+                for it in 0..4 {
+                    match apply_rule_once(rule, &stats, &cur) { Some(Ok(p)) => { if dbg(&p) == dbg(&cur) { break; } eprintln!("== {} #{}\n{}", rule, it, p); eprintln!("{}", execute(provs, &p, false)); cur = p; } other => { eprintln!("{:?}", other.map(|r| r.map(|_| ()))); break; } }
+                }
+            };
+            if c.get("otables").is_some() { let _ = with_providers(&tables_from_json(&c["otables"]), "mem", |p| show(p)); } else { let _ = sqlgen_providers(&Catalog::from_case(&c), "mem", |p| show(p)); }
+        }
+        return;
+    }
     if let Some(p) = &o.replay { for c in replay_cases(p) { let i = run_case(&c); emit(c, i); } return; }
     let mut r = Rng::new(o.seed ^ 0xC31);
     let gopts = GenOpts::from_opts(o, "all");
